@@ -129,7 +129,12 @@ def run(ctx):
     if ab:
         ops = atomic_ops(ab)
         ok = len(ops) == 1 and ops[0][1] == "fetch_max" and (sym_arg(ops[0][3][1]) or (None,))[0] == 1
-        chk.ob("C04.b", ab.path, ok, "one fetch_max(value)" if ok else f"atomic ops: {[(o[1], [sym_str(a) for a in o[3][1:]]) for o in ops]}", ab.loc())
+        detail_ = "one fetch_max(value)"
+        if not ok and any(o[1].startswith("compare_exchange") for o in ops):
+            from props.common import cas_loop
+
+            ok, detail_ = cas_loop(ab, "Max")
+        chk.ob("C04.b", ab.path, ok, detail_ if ok else f"atomic ops: {[(o[1], [sym_str(a) for a in o[3][1:]]) for o in ops]} ({detail_})", ab.loc())
         panic_regions.append(ab)
     for name, binop in (("increment", "Add"), ("decrement", "Sub")):
         g = one_method(chk, "C04.b", m, ATOM, name, "GaugeFn")
